@@ -370,11 +370,9 @@ func (l *NDNLPLinkService) handleIncomingFrame(frame []byte) {
 			copy(pkt.PitToken, LP.PitToken)
 		}
 
-		// Copy fragment to wire buffer
-		wire = wire[:0]
-		for _, b := range fragment {
-			wire = append(wire, b...)
-		}
+		// Join the fragment(s) into one buffer. A reassembled message is copied into
+		// a new buffer: the last-arrived fragment still points into wire.
+		wire = fragment.Join()
 
 		// Parse inner packet in place
 		L3, _, err := spec.ReadPacket(enc.NewBufferReader(wire))
